@@ -734,6 +734,48 @@ Proof.
 Qed.
 End Main.
 
+(** * The calls that raise: nothing is delivered, the exception leaves the method *)
+Section Raises.
+Variables (dd_rest : list (string * pv)) (cfgs : list chan_cfg) (en : list bool)
+          (en_new div_now div_new en_sync div_sync : pv).
+Let cm : Z := Z.of_nat (List.length cfgs).
+Let dv : pv := dev_obj (ddata_pv cm dd_rest) cfgs.
+Let chans : pv := chans_pv en en_new div_now div_new en_sync div_sync.
+Let comm (qs : list sitem) : pv := sch dv chans qs.
+Hypothesis Hok : Forall cfg_ok cfgs.
+
+#[local] Hint Resolve comm_dev_func nx_dev_func dev_data_func : pyspec.
+
+(** a frame that is not a stream frame on the stream queue *)
+Theorem stream_thread_other_id n fid data r subs ovf :
+  fid <> 1 ->
+  call_method program (6 + n) (nxh (comm (SFrame fid data :: r)) subs ovf) "_stream_thread" [] =
+  Exc "AssertionError".
+Proof.
+  intros Hf.
+  pose proof (stream_data_func (S n) (ddata_pv cm dd_rest) cfgs chans (SFrame fid data :: r) Hok) as HSD.
+  unfold sd_out in HSD. rewrite id_stream_1 in HSD. replace (fid =? 1) with false in HSD by lia.
+  pystart. dsteps. rewrite comp_empty_lists. dsteps. reflexivity.
+Qed.
+
+(** the decoder raises (truncated sample, unknown channel, ...) *)
+Theorem stream_thread_decode_raises n data r subs ovf w :
+  decode_result cfgs data (S (S (S n))) = Exc w ->
+  call_method program (6 + n) (nxh (comm (SFrame 1 data :: r)) subs ovf) "_stream_thread" [] = Exc w.
+Proof.
+  intros HD.
+  pose proof (stream_data_func (S n) (ddata_pv cm dd_rest) cfgs chans (SFrame 1 data :: r) Hok) as HSD.
+  unfold sd_out in HSD. rewrite id_stream_1 in HSD. cbn [Z.eqb Pos.eqb] in HSD. rewrite HD in HSD.
+  cbn [attach bind] in HSD.
+  pystart. dsteps. rewrite comp_empty_lists. dsteps. reflexivity.
+Qed.
+End Raises.
+
+(** no device description: the first assertion fails *)
+Theorem stream_thread_no_dev n chans qs subs ovf :
+  call_method program (3 + n) (nxh (sch PNone chans qs) subs ovf) "_stream_thread" [] = Exc "AssertionError".
+Proof. pystart. pyrun. Qed.
+
 (** * What each queue sees (the property text, per queue) *)
 Section PerQueue.
 Variables (en : list bool) (ss : list Stream.sample).
@@ -791,5 +833,8 @@ Ltac py_unfold_hook ::= idtac.
 Print Assumptions stream_thread_frame.
 Print Assumptions stream_thread_idle.
 Print Assumptions stream_thread_empty_payload.
+Print Assumptions stream_thread_other_id.
+Print Assumptions stream_thread_decode_raises.
+Print Assumptions stream_thread_no_dev.
 Print Assumptions deliver_row_spec.
 Print Assumptions stream_decode_in_range.
